@@ -72,7 +72,8 @@ def written_shapes(xroot):
             if tf is not None and tf.startswith("matrix(") and tf.endswith(")"):
                 nums = [float(v) for v in tf[7:-1].split(",")]
             dims = {k: e.attrib[k] for k in DIM_ATTRS.get(t, []) if k in e.attrib}
-            out.append({"tag": t, "top": depth_svg <= 1, "tf": nums, "has_tf": tf is not None, "dims": dims})
+            paint = {k: e.attrib.get(k) for k in ("fill", "fill-opacity", "stroke", "stroke-opacity")}
+            out.append({"tag": t, "top": depth_svg <= 1, "tf": nums, "has_tf": tf is not None, "dims": dims, "paint": paint})
         for c in e:
             go(c, depth_svg)
     go(xroot, 0)
@@ -228,12 +229,13 @@ class C20(Prop):
             "back, and the rendered shapes are compared with the source tree's: count, order, kind, id, absolute geometry within the "
             "six-decimal precision of the written matrices, fill and stroke (unset = initial value), rendered stroke width; then the "
             "re-parsed tree is written and parsed again and compared with the first re-parse (second-generation stability). The "
-            "writer model (Lean: written matrix = t * inverse viewport transform; truthiness-guarded dimensions) is compared with the "
-            "attributes found in the written XML. non-trivial = the tree has a shape with a non-identity transform or a viewBox")
+            "writer model (Lean: written matrix = t * inverse viewport transform; truthiness-guarded dimensions; paint = '#rrggbb' of the opaque colour "
+            "plus alpha/255 unless 1.0, 'none', or nothing) is compared with the attributes found in the written XML for every shape. non-trivial = the tree has a shape with a non-identity transform or a viewBox")
     trusted_base = [
         "xml.etree.ElementTree serialisation and escaping; gzip",
         "'%f' formatting: modelled by its contract (absolute deviation <= 5e-7 per matrix entry)",
         "str(float) is the shortest round-trip spelling (exact)",
+        "paint theorems are over an exact field with round(n) = n on integers; float: (a/255.0)*255.0 rounds to a for the 256 bytes (checked by the oracle's round trip)",
     ]
     assumptions = ["an unset fill/stroke and its initial value (black/none) are the same rendered paint",
                    "documents are re-parsed with the same ppi; the written width/height make caller sizes unnecessary"]
@@ -351,6 +353,10 @@ class C20(Prop):
             return ops
         vt = obs["src_vt"]
         for i, (w, s) in enumerate(zip(obs["written"], obs["src"])):
+            for pk in ("fill", "stroke"):
+                if s.get(pk) in ("unset", "none") or isinstance(s.get(pk), int):
+                    ops.append("c20.paint\t%s" % s[pk])
+                    plan.append(("paint." + pk, i))
             if not w["top"]:
                 continue
             ops.append("c20.written\t%s\t%s" % (" ".join(fhex(v) for v in s["m"]), "-" if vt is None else " ".join(fhex(v) for v in vt)))
@@ -371,7 +377,34 @@ class C20(Prop):
             if toks[0] != "OK":
                 ms.append(Mismatch(stream="c20.write", case=case, impl=w, model=out))
                 break
-            if what == "tf":
+            if what.startswith("paint."):
+                pk = what[6:]
+                text, op = toks[1], toks[2]
+                have_t, have_o = w["paint"].get(pk), w["paint"].get(pk + "-opacity")
+                if (have_t or "-") != text:
+                    ms.append(Mismatch(stream="c20.paint", case=case, impl="shape %d (%s): %s=%r written for %r" % (i, w["tag"], pk, have_t, s[pk]), model=text))
+                    break
+                if op != "-":
+                    # the writer's own number; a stale attribute copied from the source values is overwritten by it
+                    try:
+                        ok = have_o is not None and float(have_o) == hexf(op)
+                    except ValueError:
+                        ok = False
+                    if not ok:
+                        ms.append(Mismatch(stream="c20.paint", case=case, impl="shape %d (%s): %s-opacity=%r written for %r" % (i, w["tag"], pk, have_o, s[pk]), model=hexf(op)))
+                        break
+                elif have_o is not None and isinstance(s[pk], int):
+                    # nothing written by the paint section: what is there was copied from the source values and must
+                    # still denote an opaque colour for the reader
+                    try:
+                        x = float(have_o)
+                        ok = min(255, max(0, int(round(min(1.0, max(0.0, x)) * 255.0)))) == 255
+                    except ValueError:
+                        ok = True
+                    if not ok:
+                        ms.append(Mismatch(stream="c20.paint", case=case, impl="shape %d (%s): stale %s-opacity=%r beside an opaque colour" % (i, w["tag"], pk, have_o), model="-"))
+                        break
+            elif what == "tf":
                 W = [hexf(t) for t in toks[1:7]]
                 ident = all(abs(a - b) <= 5e-7 for a, b in zip(W, [1, 0, 0, 1, 0, 0]))
                 if w["tf"] is None:
